@@ -487,6 +487,10 @@ def run(ctx):
     # every keyspace folder / every record is looked at
     D.loops_visit_all(ctx, "R-C12.12", only=("recovery::recover_keyspaces", "keyspace::Keyspace::inner_rotate_memtable", "db::Database::recover"))
 
+    # ---- borrowed obligations (mechanisms owned by other properties that this property's verdict also rests on)
+    # a transaction's write to one keyspace is never dropped because of what it wrote to another
+    ctx.borrow("C08", ["R-C08.4"], "R-C12.15")
+
 
 def _peel(tm):
     while tm is not None and tm.k == "call" and A.is_transparent(tm.a[0]) and tm.a[1]:
